@@ -29,6 +29,8 @@ func TestHarness(t *testing.T) {
 	switch *flagMode {
 	case "c18":
 		res = runC18(t, raw)
+	case "link":
+		res = runLinks(t, raw)
 	default:
 		t.Fatalf("unknown mode %q", *flagMode)
 	}
